@@ -15,6 +15,7 @@ const (
 	vErr
 	vSet
 	vReturn
+	vJoin
 )
 
 func vpoint(l *lexer, kind int) {}
